@@ -80,14 +80,13 @@ class _LinearOp():
         # tme = datetime.datetime.now() - tme
         # print('contr   ',tme)
         
+        self.coreA = coreA
         if band_diagonal >= 0:
             self.bands = []
             for i in range(-band_diagonal, band_diagonal+1):
                 tmp = tn.diagonal(coreA, i, 1, 2)
                 tmp = tnf.pad(tmp, ((i) if i > 0 else 0, abs(i) if i < 0 else 0, 0, 0, 0, 0))
                 self.bands.append(tmp.clone())
-        else:
-            self.coreA = coreA
 
         # tme = datetime.datetime.now()
         if prec == 'c':
